@@ -74,8 +74,15 @@ def R1_tolerance_units(ctx):
     rows = [r for r in table(wt) if r.end == "return"]
     okw = False
     for r in rows:
-        if r.sel.get(("arg", 1)) == "Some":
-            c = as_cmp(r.ret)
+        ret = r.ret
+        if ("arg", 1) not in r.sel:
+            # tolerance.map_or(true, |(t, unit)| ..): the closure's value is the Some case, the default the None case
+            nv = norm_adaptors(F, nosite(deep_strip(ret)))
+            if nv[0] == "default":
+                ctx.check(nv[2] == ("const", "bool", True), "edge:no-tolerance=>within", "without a tolerance a candidate is not within tolerance", wt.where())
+                ret = nv[1]
+        if r.sel.get(("arg", 1)) == "Some" or ret is not r.ret:
+            c = as_cmp(ret)
             if c:
                 c = canon_cmp(c)
                 conv = [s for s in subterms(c[2]) if s[0] == "call" and s[1].endswith("DistanceUnit::convert")]
@@ -121,7 +128,12 @@ def R2_nearest_admissible(ctx):
     ctl = [t for sbb, t in controlling_true_terms(b, tm, mb)]
     cls_ok = truck_ok = False
     for t in ctl:
-        alts = set(t[1]) if t[0] == "phi" else {t}
+        alts = set()
+        for x in (t[1] if t[0] == "phi" else (t,)):
+            x = norm_adaptors(F, x)
+            if x[0] == "default" and x[2] == ("const", "bool", True):
+                x = x[1]            # no entry => nothing to test
+            alts |= set(x[1]) if x[0] == "phi" else {x}
         for x in alts:
             if x[0] == "call" and x[1].endswith("HashSet::<T, S, A>::contains"):
                 look = x[2][1]
